@@ -668,3 +668,125 @@ func runShard(t *testing.T, shard int) {
 func TestDiscoveryTTL3(t *testing.T)  { runShard(t, 0) }
 func TestDiscoveryTTL5(t *testing.T)  { runShard(t, 1) }
 func TestDiscoveryTTL10(t *testing.T) { runShard(t, 2) }
+
+// TestRelayRing is a fixed scenario for the relay clause: a ring 0-1-2-3-4-5-0, target 3,
+// origin 0. After the three discoveries below node 0 knows the target through 1 and 5, and
+// nodes 1 and 5 know it through 2 resp. 4 and - the long way round - through 0. Each relayed
+// connection 0->3 therefore reaches a relay whose candidate next hops include the origin
+// with probability 1/2; 24 attempts make the situation certain to be observed.
+func TestRelayRing(t *testing.T) {
+	run := obs.Start(t, "C28")
+	defer run.Done()
+	run.Rule("fixed ring of 6 and of 8 nodes, alpha 2, MaxTTL 10, no loss: discoveries origin->target and from both neighbours of the origin, then 24 relayed connections origin->target (opposite node)")
+	for _, size := range []int{6, 8} {
+		c := run.Begin(fmt.Sprintf("ring/%d", size), map[string]interface{}{"nodes": size, "kind": "ring", "maxTTL": 10, "alpha": 2})
+		if c == nil {
+			continue
+		}
+		cf := cfg{nodes: size, maxTTL: 10, alpha: 2, kind: "ring"}
+		for j := 0; j < size; j++ {
+			a, b := j, (j+1)%size
+			if a > b {
+				a, b = b, a
+			}
+			cf.edges = append(cf.edges, [2]int{a, b})
+		}
+		atomic.StoreInt32(&routetab.MaxTTL, int32(cf.maxTTL))
+		routetab.NeighborAlpha = int32(cf.alpha)
+		net, err := rtsim.New(c.Rand(), rtsim.Options{Nodes: size, NetworkID: 1, Alpha: int32(cf.alpha), Identities: identities(t, run)[:size]})
+		if err != nil {
+			t.Fatalf("harness: build network: %v", err)
+		}
+		for _, e := range cf.edges {
+			if err := net.Link(e[0], e[1]); err != nil {
+				t.Fatalf("harness: link: %v", err)
+			}
+		}
+		m := &monitor{t: t, run: run, c: c, cfg: cf, net: net, orders: map[string]bool{}}
+		for range net.Nodes {
+			m.checked = append(m.checked, map[string]bool{})
+		}
+		net.Observe = m.observe
+		net.OnDeliver = m.onDeliver
+		target := size / 2
+		for _, s := range []int{0, 1, size - 1} {
+			if m.find(s, target, 2*time.Second) {
+				run.Stat("ring_discoveries_succeeded", 1)
+			}
+			m.quiesce("FindRoute")
+			m.closeOrder()
+			m.checkBound("FindRoute")
+			m.checkTables()
+		}
+		// does a neighbour of the origin hold the origin as a next hop for the target?
+		for _, r := range []int{1, size - 1} {
+			for _, h := range net.Nodes[r].Svc.VerifTable().GetNextHop(net.Nodes[target].Overlay) {
+				if h.Equal(net.Nodes[0].Overlay) {
+					run.Stat("ring_relays_knowing_target_through_origin", 1)
+				}
+			}
+		}
+		restore := routetab.VerifSetFindTimeout(200 * time.Millisecond)
+		for k := 0; k < 24; k++ {
+			m.mu.Lock()
+			m.log = append(m.log, fmt.Sprintf("relay 0->%d", target))
+			m.mu.Unlock()
+			res := net.Relay(0, target, 3*time.Second)
+			run.Stat("relay_attempts", 1)
+			if res.Delivered {
+				run.Stat("relay_connections_established", 1)
+				run.Stat("ring_relays_delivered", 1)
+			}
+			m.quiesce("relay")
+			m.closeOrder()
+			m.checkTables()
+		}
+		restore()
+		net.Close()
+		c.End(fmt.Sprintf("ring/%d", size), true)
+	}
+}
+
+// TestDiamond is a fixed scenario for the "distinct nodes" clause: two disjoint branches
+// 0-1-3 and 0-2-3 join at node 3, the target 7 lies behind a tail 3-4-5-6-7. With alpha 2
+// both branches ask node 3 for the target before the answer has come back along the tail,
+// so node 3 holds two pending requesters when it forwards the response.
+func TestDiamond(t *testing.T) {
+	run := obs.Start(t, "C28")
+	defer run.Done()
+	run.Rule("fixed diamond-with-tail topology, alpha 2, MaxTTL 10, no loss: one discovery 0->7 and one 7->0, all tables checked")
+	c := run.Begin("diamond", map[string]interface{}{"nodes": 8, "kind": "diamond+tail", "maxTTL": 10, "alpha": 2})
+	if c == nil {
+		return
+	}
+	cf := cfg{nodes: 8, maxTTL: 10, alpha: 2, kind: "diamond+tail",
+		edges: [][2]int{{0, 1}, {0, 2}, {1, 3}, {2, 3}, {3, 4}, {4, 5}, {5, 6}, {6, 7}}}
+	atomic.StoreInt32(&routetab.MaxTTL, int32(cf.maxTTL))
+	routetab.NeighborAlpha = int32(cf.alpha)
+	net, err := rtsim.New(c.Rand(), rtsim.Options{Nodes: cf.nodes, NetworkID: 1, Alpha: int32(cf.alpha), Identities: identities(t, run)[8:16]})
+	if err != nil {
+		t.Fatalf("harness: build network: %v", err)
+	}
+	defer net.Close()
+	for _, e := range cf.edges {
+		if err := net.Link(e[0], e[1]); err != nil {
+			t.Fatalf("harness: link: %v", err)
+		}
+	}
+	m := &monitor{t: t, run: run, c: c, cfg: cf, net: net, orders: map[string]bool{}}
+	for range net.Nodes {
+		m.checked = append(m.checked, map[string]bool{})
+	}
+	net.Observe = m.observe
+	net.OnDeliver = m.onDeliver
+	for _, p := range [][2]int{{0, 7}, {7, 0}} {
+		if m.find(p[0], p[1], 2*time.Second) {
+			run.Stat("diamond_discoveries_succeeded", 1)
+		}
+		m.quiesce("FindRoute")
+		m.closeOrder()
+		m.checkBound("FindRoute")
+		m.checkTables()
+	}
+	c.End("diamond", m.recorded > 0)
+}
